@@ -1,12 +1,10 @@
 import NbioVerif.DrvCommon
 import NbioVerif.Model.HttpMsg
 import NbioVerif.Model.ScanChecked
+import NbioVerif.Model.HttpEngine
+import NbioVerif.Model.HttpBody
 /-! httpdrv: line-protocol driver of the HTTP parser family (C06, C07, C08); see harness/cmd/hhttp/main.go. -/
 open Http Scan Drv
-
-/-- the Parse loop with Go's slice/index expressions checked; 998 = the Go code would panic (C08: unreachable) -/
-def parseChecked (g : Cfg) (p : P) (cache data : List UInt8) (acc : List Ev) : Res P Ev :=
-  (implParseC (machine g) p cache data acc).getD ⟨acc, .inr 998⟩
 
 def showEv : Ev → String
   | .method m => s!"method {hex m}"
@@ -63,15 +61,16 @@ def showDelivered : Delivered → String
 structure DS where
   g : Cfg
   limit : Nat
-  p : P
-  cache : List UInt8
+  pc : HttpEngine.PC P         -- the parser as the engine holds it (state, cache, closed)
   cur : Option Building        -- processor: message under construction
-  dead : Bool
   -- C07 (hhttp7): the messages of the case, their concatenated rendering, the message boundaries
   msgs : List Msg := []
   stream : List UInt8 := []
   bounds : List Nat := []
   neighbour : Bool := false
+  emode : Nat := 0             -- hhttpe: I/O mode of the engine cell
+  br : HttpBody.BR := {}       -- hbody: the BodyReader
+  brMax : Nat := 0
 
 /-! ### C07: decoding of `M` lines (see harness/cmd/hhttp7/msg.go) -/
 
@@ -127,19 +126,57 @@ def showNorm (m : Msg) : String :=
       s!"nres\{{hex (n.line.getD 0 [])}|{decimal (n.line.getD 1 [])}|{hex (n.line.getD 2 [])}|{hdrString n.header}|{showFraming n.framing}|{n.body.length}:{hexNat (fnv n.body).toNat}|{hdrString n.trailer}}"
     | none => "none"
 
-/-- feed `stream` in the given segment sizes (the rest in one piece), as the harness does -/
-def feedSegs (g : Cfg) (limit : Nat) : Nat → P → List UInt8 → List UInt8 → List Nat → List Ev → Res P Ev
-  | 0, p, cache, _, _, acc => ⟨acc, .inl (p, cache)⟩
-  | fuel + 1, p, cache, rest, segs, acc =>
-    if rest = [] then ⟨acc, .inl (p, cache)⟩ else
-    let n := match segs with | s :: _ => if s < rest.length && s > 0 then s else rest.length | [] => rest.length
-    let data := rest.take n
-    if cache ≠ [] && limit > 0 && cache.length + data.length > limit then ⟨acc, .inr E.tooLong.code⟩
-    else match parseChecked g p cache data acc with
-      | ⟨acc', .inl (p', cache')⟩ => feedSegs g limit fuel p' cache' (rest.drop n) segs.tail acc'
-      | r => r
+/-- the writes of an hhttpe case / the reads of an hhttp7 case: the stream cut at the given sizes, the rest in one piece -/
+def writesOf : Nat → List UInt8 → List Nat → List (List UInt8)
+  | 0, _, _ => []
+  | fuel + 1, rest, cuts =>
+    if rest = [] then [] else
+    let n := match cuts with | c :: _ => if c > 0 && c < rest.length then c else rest.length | [] => rest.length
+    rest.take n :: writesOf fuel (rest.drop n) cuts.tail
 
-/-- run the processor glue over the events of one Parse call -/
+/-- request targets as the hhttpe handler files them: "/<id>/<name>[?…]" ↦ name -/
+def pathName (id : String) (target : List UInt8) : Option String :=
+  let t := String.ofList (target.map fun b => Char.ofNat b.toNat)
+  let t := (t.splitOn "?").headD ""
+  match ((t.drop 1).toString.splitOn "/") with
+  | i :: rest => if i == id && rest ≠ [] then some (String.intercalate "/" rest) else none
+  | _ => none
+
+/-- one engine scenario on the model: the client's writes arrive as reads (by C06 the cut positions do not matter),
+    then the client closes; returns the line the harness prints for the real engine -/
+def engineCase (g : Cfg) (mode : Nat) (id : String) (stream : List UInt8) (cuts : List Nat) : String :=
+  let ws := writesOf (stream.length + 1) stream cuts
+  let c0 : HttpEngine.Conn P Ev := HttpEngine.fresh (Http.init g)
+  let M := machine g
+  -- while the client is still connected
+  let c1 : HttpEngine.Conn P Ev :=
+    match mode with
+    | 0 => HttpEngine.runNB M 0 c0 (ws.map .data)
+    | 1 | 2 => HttpEngine.runB M 0 c0 (ws.map .data)
+    | 3 => HttpEngine.runTlsNB M 0 c0 (ws.map fun w => (.data w, [⟨w, false⟩, ⟨[], false⟩]))
+    | _ => HttpEngine.runTlsB M 0 c0 (ws.map fun w => (.data w, [⟨w, false⟩, ⟨[], false⟩]))
+  let closedFirst := c1.trace.any (· == HttpEngine.Obs.connClose)
+  -- then the client closes: the next read fails
+  let c2 : HttpEngine.Conn P Ev :=
+    match mode with
+    | 0 => HttpEngine.runNB M 0 c1 [.err]
+    | 1 | 2 => HttpEngine.runB M 0 c1 [.err]
+    | 3 => HttpEngine.runTlsNB M 0 c1 [(.err, [])]
+    | _ => HttpEngine.runTlsB M 0 c1 [(.err, [])]
+  let evs := c2.trace.filterMap fun | .ev e => some e | _ => none
+  let names := (requestsOf evs).filterMap fun r => pathName id r.target
+  let onclose := (c2.trace.filter (· == HttpEngine.Obs.onClose)).length
+  s!"R handled={String.intercalate "," names} closed={if closedFirst then 1 else 0} onclose={onclose}"
+
+def showAlloc (evs : List HttpBody.AllocEv) : String :=
+  String.intercalate "," (evs.map fun
+    | .malloc id n cap => s!"m{id}:{n}:{cap}"
+    | .free id => s!"f{id}")
+
+def showBR (br : HttpBody.BR) (evs : List HttpBody.AllocEv) : String :=
+  s!"left={br.left} index={br.index} nbuf={br.buffers.length} closed={if br.closed then 1 else 0} alloc={showAlloc evs}"
+
+/-- one step of `procCalls` (Model/HttpProc.lean): the processor consumes the events of one Parse call -/
 def runProc (s : DS) (evs : List Ev) : Option Building × String :=
   match procRun s.g.isClient s.cur evs [] with
   | some (cur, out) => (cur, String.intercalate ";" (out.map showDelivered))
@@ -155,32 +192,27 @@ partial def loop (h : IO.FS.Stream) (s : DS) : IO Unit := do
   | ["C", cli, maxb, lim] =>
     let g : Cfg := { isClient := cli == "1", maxBody := maxb.toNat!, urlOk := fun _ => true, protoOk := fun _ => true }
     IO.println "ok"
-    loop h { g, limit := lim.toNat!, p := Http.init g, cache := [], cur := none, dead := false }
+    loop h { g, limit := lim.toNat!, pc := { st := Http.init g, cache := [] }, cur := none }
   | "D" :: hx :: rest =>
-    if s.dead then IO.println "dead"; loop h s
-    else
-      let data := unhex hx
-      let badUrls := hexList ((field rest "badurl").getD "")
-      let badProtos := hexList ((field rest "badproto").getD "")
-      let okProtos := hexList ((field rest "okproto").getD "")
-      -- the verdict of http.ParseHTTPVersion is an input; the model's own `parseHTTPVersion` must agree with it
-      let protoMismatch := badProtos.any (fun b => (parseHTTPVersion b).isSome) || okProtos.any (fun b => (parseHTTPVersion b).isNone)
-      let g : Cfg := { s.g with urlOk := fun u => !badUrls.contains u, protoOk := fun u => !badProtos.contains u }
-      if s.cache ≠ [] && s.limit > 0 && s.cache.length + data.length > s.limit then
-        IO.println s!"R err={E.tooLong.code} [] msgs="
-        loop h { s with dead := true }
-      else
-        let r := parseChecked g s.p s.cache data []
-        let evs := String.intercalate ";" (r.evs.map showEv)
-        let (cur, msgs) := runProc s r.evs
-        let pm := if protoMismatch then " proto-verdict-mismatch" else ""
-        match r.fin with
-        | .inl (p', cache') =>
-          IO.println s!"R ok cache={cache'.length} st={p'.st.num} [{evs}] msgs={msgs}{pm}"
-          loop h { s with p := p', cache := cache', cur := cur }
-        | .inr e =>
-          IO.println s!"R err={e} [{evs}] msgs={msgs}{pm}"
-          loop h { s with dead := true, cur := cur }
+    let data := unhex hx
+    let badUrls := hexList ((field rest "badurl").getD "")
+    let badProtos := hexList ((field rest "badproto").getD "")
+    let okProtos := hexList ((field rest "okproto").getD "")
+    -- the verdict of http.ParseHTTPVersion is an input; the model's own `parseHTTPVersion` must agree with it
+    let protoMismatch := badProtos.any (fun b => (parseHTTPVersion b).isSome) || okProtos.any (fun b => (parseHTTPVersion b).isNone)
+    let g : Cfg := { s.g with urlOk := fun u => !badUrls.contains u, protoOk := fun u => !badProtos.contains u }
+    -- one `Parse` call with the engine glue: on an error the parser is closed (Model/HttpEngine.lean: parseE)
+    let (pc', evl, err) := HttpEngine.parseE (machine g) s.limit s.pc data
+    let evs := String.intercalate ";" (evl.map showEv)
+    let (cur, msgs) := runProc s evl
+    let pm := if protoMismatch then " proto-verdict-mismatch" else ""
+    match err with
+    | none =>
+      IO.println s!"R ok cache={pc'.cache.length}:{hexNat (fnv pc'.cache).toNat} st={pc'.st.st.num} held={pc'.st.bodyHeld} [{evs}] msgs={msgs}{pm}"
+      loop h { s with pc := pc', cur := cur }
+    | some e =>
+      IO.println s!"R err={e} [{evs}] msgs={msgs}{pm}"
+      loop h { s with pc := pc', cur := cur }
   | "M" :: rest =>
     match decMsg rest with
     | none => IO.println "bad-op"; loop h s
@@ -198,7 +230,7 @@ partial def loop (h : IO.FS.Stream) (s : DS) : IO Unit := do
     let badProtos := hexList ((field rest "badproto").getD "")
     let g : Cfg := { s.g with urlOk := fun u => !badUrls.contains u, protoOk := fun u => !badProtos.contains u }
     let segl := if segs == "whole" then [] else (segs.splitOn ",").map String.toNat!
-    let r := feedSegs g s.limit (s.stream.length + 1) (Http.init g) [] s.stream segl []
+    let r := feedAllL (machine g) s.limit (Http.init g) [] (writesOf (s.stream.length + 1) s.stream segl) []
     let msgs := match procRun g.isClient none r.evs [] with
       | some (_, out) => String.intercalate ";" (out.map showDelivered)
       | none => "proc-nil-deref"
@@ -209,7 +241,11 @@ partial def loop (h : IO.FS.Stream) (s : DS) : IO Unit := do
       IO.println s!"R err={err} cache={if err == 0 then toString cache else "?"} st={if err == 0 then toString st else "?"} nb={msgs} offs=- ref=-"
     else
       let done := (r.evs.filter (· == Ev.complete)).length
-      let offs := String.intercalate "," ((s.bounds.take done).map toString)
+      -- message boundaries as the model parser places them (byte-at-a-time run); for long streams (quadratic on
+      -- lists) the cumulative rendered lengths, which c07_message proves to be the same
+      let offl := if s.stream.length ≤ 2500 then boundaries (machine g) (· == Ev.complete) (Http.init g) [] s.stream 0
+                  else s.bounds.take done
+      let offs := String.intercalate "," (offl.map toString)
       let ref := String.intercalate ";" (s.msgs.map showNorm)
       -- instances of the C07 theorems, evaluated on this case (cannot fail for well-formed messages)
       let specEvs := (s.msgs.map eventsOf).flatten
@@ -220,12 +256,43 @@ partial def loop (h : IO.FS.Stream) (s : DS) : IO Unit := do
       let ok := flat r.evs == specEvs && deliveredOf g.isClient specEvs == specDel
       IO.println s!"R err={err} cache={if err == 0 then toString cache else "?"} st={if err == 0 then toString st else "?"} nb={msgs} offs={offs} ref={ref}{if ok then "" else " spec-mismatch"}"
     loop h s
-  -- hhttpe (engine-level "nothing after an error"): an implementation-only stream; the model-level statement is
-  -- theorem c08_silent_after_close, the driver only keeps the line protocol in step (fields compared: none)
-  | ["C", mode] => IO.println (if mode == "0" || mode == "1" || mode == "2" then "ok" else "bad-op"); loop h s
-  | ["S", _, _, _] => IO.println "R"; loop h s
+  -- hbody: the BodyReader model (Model/HttpBody.lean)
+  | ["C", "body", mx] => IO.println "ok"; loop h { s with br := {}, brMax := mx.toNat! }
+  | ["A", pl, extra] =>
+    match HttpBody.append s.brMax s.br (payload pl) extra.toNat! with
+    | none => IO.println s!"R toolong {showBR s.br []}"; loop h s
+    | some (br', evs) => IO.println s!"R ok {showBR br' evs}"; loop h { s with br := br' }
+  | ["R", n] =>
+    match HttpBody.read s.br n.toNat! with
+    | none => IO.println "R out-of-fuel"; loop h s
+    | some (br', out, eof, evs) =>
+      IO.println s!"R n={out.length} eof={if eof then 1 else 0} data={out.length}:{hexNat (fnv out).toNat} {showBR br' evs}"
+      loop h { s with br := br' }
+  | ["X"] =>
+    let (br', evs) := HttpBody.close s.br
+    IO.println s!"R closed {showBR br' evs}"; loop h { s with br := br' }
+  | ["B"] =>
+    let raw := HttpBody.rawBuffers s.br
+    let rs := String.intercalate "," (raw.map fun b => s!"{b.length}:{hexNat (fnv b).toNat}")
+    IO.println s!"R raw={rs} {showBR s.br []}"; loop h s
+  | ["N"] =>
+    let (br', evs) := HttpBody.recycle s.br
+    IO.println s!"R new {showBR br' evs}"; loop h { s with br := br' }
+  -- hhttpe: the engine model (Model/HttpEngine.lean) over the parser model, on the writes of the case
+  | ["C", mode] =>
+    if mode.toNat! ≤ 5 && mode.isNat then IO.println "ok"; loop h { s with emode := mode.toNat! }
+    else IO.println "bad-op"; loop h s
+  | "S" :: id :: hx :: cuts :: rest =>
+    let stream := unhex hx
+    let badUrls := hexList ((field rest "badurl").getD "")
+    let badProtos := hexList ((field rest "badproto").getD "")
+    let g : Cfg := { isClient := false, maxBody := 0, urlOk := fun u => !badUrls.contains u, protoOk := fun u => !badProtos.contains u }
+    let cuts := if cuts.endsWith "!" then cuts.dropRight 1 else cuts   -- "!": the client closes at once
+    let cutl := if cuts == "whole" then [] else (cuts.splitOn ",").map String.toNat!
+    IO.println (engineCase g s.emode id stream cutl)
+    loop h s
   | _ => IO.println "bad-op"; loop h s
 
 def main : IO Unit := do
   let g : Cfg := { isClient := false, maxBody := 0, urlOk := fun _ => true, protoOk := fun _ => true }
-  loop (← IO.getStdin) { g, limit := 0, p := Http.init g, cache := [], cur := none, dead := false }
+  loop (← IO.getStdin) { g, limit := 0, pc := { st := Http.init g, cache := [] }, cur := none }
